@@ -48,7 +48,9 @@ func MakeInput(m *wgen.Module, r *run.Rng) wref.Input {
 		}
 		rt := 0
 		if g.Ty.HasRuntimeArray() {
-			rt = r.Range(1, 4)
+			// the binding size is the (padded) size of the store type with rt elements; arrayLength is derived from the binding
+			// size, so padding at the end of the struct may hold further elements (WGSL: floor((size - offset) / stride)).
+			rt = wlayout.RuntimeCount(g.Ty, wlayout.SizeOfRT(g.Ty, r.Range(1, 4)))
 			in.RT[g] = rt
 		}
 		ls := wlayout.Leaves(g.Ty, rt)
@@ -82,6 +84,13 @@ func SlotOf(g *wgen.Var) xrt.Slot { return xrt.Slot{A: uint32(g.Group), B: uint3
 // Image renders the byte image of a global from scalar leaves using the WGSL layout. Padding bytes are 0xCD.
 func Image(g *wgen.Var, cells []wref.Sc, rt int) []byte {
 	size := wlayout.SizeOfRT(g.Ty, rt)
+	if off, stride, ok := wlayout.TailInfo(g.Ty); ok {
+		// keep arrayLength == rt exactly: do not let struct tail padding add room for another element
+		size = off + rt*stride
+		if r := size % 4; r != 0 {
+			size += 4 - r
+		}
+	}
 	b := make([]byte, size)
 	for i := range b {
 		b[i] = 0xCD
@@ -151,8 +160,8 @@ func Compare(m *wgen.Module, in wref.Input, exp wref.Output, get func(g *wgen.Va
 			}
 			if w.Tol == 0 {
 				st.Exact++
-				if got != uint32(w.B) {
-					// +0 / -0 produced by exact float ops are bit-exact in wref; report
+				if got != uint32(w.B) && !(l.Kind == wgen.KF32 && (got|uint32(w.B))&0x7FFFFFFF == 0) {
+					// (the sign of a zero result is not pinned down by WGSL: +0 and -0 are accepted for each other)
 					diffs = append(diffs, Diff{Global: g.Name, Path: l.Path, Off: l.Off, Want: uint32(w.B), Got: got, Class: "exact"})
 				}
 				continue
